@@ -229,6 +229,8 @@ def m_opt_map(interp, fn, args, st, site, frame):
             out.append((NONE, st2))
         else:
             r = interp.call_closure(args[1], [v.fields[0]], st2, frame)
+            if r is None and isinstance(args[1], FnV):
+                r = _call_fnlike(interp, args[1], [v.fields[0]], st2, frame, site, "map")
             if r is None:
                 out.append((some(Top("map@" + site)), st2))
             else:
@@ -240,6 +242,11 @@ def m_opt_map(interp, fn, args, st, site, frame):
 
 def _call_fnlike(interp, f, argv, st, frame, site, what):
     """call a closure value or a function item passed by value; None when it cannot be resolved"""
+    if isinstance(f, FnV):
+        try:
+            return interp.call_fn(f.fn, list(argv), st, "%s~%s" % (site, what), frame)
+        except Budget:
+            return None
     if not (isinstance(f, Adt) and f.name.startswith("closure:")):
         return None
     body = interp.prog.bodies.get(f.name[len("closure:"):])
@@ -497,9 +504,123 @@ def _array_len(interp, r, st):
     return None
 
 
+def _window(r):
+    """(base ref, lo, hi) when r is a view `base[lo..hi]` made by m_split_at_concrete"""
+    if isinstance(r, Ref) and r.path and isinstance(r.path[-1], str):
+        m = re.match(r"\[(\d+)\.\.(\d+)\]$", r.path[-1])
+        if m:
+            return Ref(r.addr, r.path[:-1], r.mut), int(m.group(1)), int(m.group(2))
+    return None
+
+
+def _extent(interp, r, st):
+    """(base ref, lo, hi) of a slice reference whose extent is known: a view, or an array unsized to a slice"""
+    w = _window(r)
+    if w is not None:
+        return w
+    n = _array_len(interp, r, st)
+    return (r, 0, n) if n is not None else None
+
+
+def m_split_at_concrete(interp, fn, args, st, site, frame):
+    """arr.split_at(_mut)(k) on an array of known length with a constant k: two views (opt-in, concrete_iters)"""
+    if not getattr(interp, "concrete_iters", False) or len(args) != 2:
+        return None
+    k = interp.concretize(args[1], st)
+    ext = _extent(interp, args[0], st)
+    if ext is None or not (isinstance(k, Const) and isinstance(k.v, int) and 0 <= k.v <= ext[2] - ext[1]):
+        return None
+    r, lo, hi = ext
+    mk = lambda a, b: Ref(r.addr, r.path + ("[%d..%d]" % (a, b),), r.mut)
+    return [(Adt("tuple", 0, (mk(lo, lo + k.v), mk(lo + k.v, hi))), st)]
+
+
+def m_view_len(interp, fn, args, st, site, frame):
+    if args and getattr(interp, "concrete_iters", False):
+        ext = _extent(interp, args[0], st)
+        if ext is not None:
+            return [(Const(ext[2] - ext[1], "usize"), st)]          # a view, or a slice unsized from an array of known length
+    return None
+
+
+def m_bitop_assign(interp, fn, args, st, site, frame):
+    """<uN as BitXorAssign<&uN>>::bitxor_assign(&mut a, b) (and the And / Or forms): *a = *a op *b, as the primitive
+    compound assignment would be (opt-in, concrete_iters)"""
+    if not getattr(interp, "concrete_iters", False) or len(args) != 2 or not isinstance(args[0], Ref):
+        return None
+    m = re.search(r"Bit(Xor|And|Or)Assign(<.*>)?>::bit(xor|and|or)_assign$", fn.get("rfull") or fn.get("full") or fn.get("path") or "")
+    if not m:
+        return None
+    st2 = st.fork()
+    a = interp.read_at(args[0].addr, args[0].path, st2)
+    b = deref(interp, args[1], st2) if not (isinstance(args[1], Ref) and any(isinstance(p_, str) and p_.startswith("[") for p_ in args[1].path)) \
+        else interp.read_at(args[1].addr, args[1].path, st2)
+    interp.write_at(args[0].addr, args[0].path, Adt("op:Bit%s" % m.group(1), 0, (a, b)), st2)
+    return [(UNIT, st2)]
+
+
+def m_to_be_bytes(interp, fn, args, st, site, frame):
+    """uN::to_be_bytes(x): byte i is (x >> 8 (n-1-i)) as u8 - kept as that expression (opt-in, concrete_iters)"""
+    m = re.search(r"<impl u(8|16|32|64|128)>::to_be_bytes$", fn.get("path") or "")
+    if not m or not args:
+        return None
+    n = int(m.group(1)) // 8
+    if not getattr(interp, "concrete_iters", False):
+        return None
+    x = interp.concretize(args[0], st)
+    if isinstance(x, Const) and isinstance(x.v, int):
+        return [(Adt("array", 0, tuple(Const((x.v >> (8 * (n - 1 - i))) & 0xFF, "u8") for i in range(n))), st)]
+    return [(Adt("array", 0, tuple(Adt("op:Shr", 0, (x, Const(8 * (n - 1 - i)))) for i in range(n))), st)]
+
+
+def m_from_be_bytes(interp, fn, args, st, site, frame):
+    """uN::from_be_bytes([x >> 8(n-1), .., x >> 8(n-k)]) = x >> 8(n-k): the leading bytes of one value reassembled"""
+    if not getattr(interp, "concrete_iters", False) or not args:
+        return None
+    a = interp.concretize(args[0], st)
+    if not (isinstance(a, Adt) and a.name == "array" and a.fields):
+        return None
+    if all(isinstance(f, Const) and isinstance(f.v, int) for f in a.fields):
+        v = 0
+        for f in a.fields:
+            v = (v << 8) | (f.v & 0xFF)
+        return [(Const(v), st)]
+    base, sh0 = None, None
+    for i, f in enumerate(a.fields):
+        if not (isinstance(f, Adt) and f.name == "op:Shr" and isinstance(f.fields[1], Const)):
+            return None
+        if base is None:
+            base, sh0 = f.fields[0], f.fields[1].v
+        if f.fields[0].key() != base.key() or f.fields[1].v != sh0 - 8 * i:
+            return None
+    last = sh0 - 8 * (len(a.fields) - 1)
+    return [(Adt("op:Shr", 0, (base, Const(last))), st)]
+
+
+def m_iter_zip(interp, fn, args, st, site, frame):
+    if len(args) != 2 or not (isinstance(args[0], Adt) and args[0].name.startswith("it:")):
+        return None
+    b = args[1]
+    if isinstance(b, Adt) and b.name.startswith("it:"):
+        other = b
+    elif isinstance(b, Adt) and b.name == "array":
+        other = Adt("it:array", 0, (b, Const(0, "usize")))
+    elif isinstance(b, Ref):
+        ext = _extent(interp, b, st)
+        if ext is None or ext[2] - ext[1] > 64:
+            return None
+        other = Adt("it:slice", 0, (ext[0], Const(ext[1], "usize"), Const(ext[2], "usize")))
+    else:
+        return None
+    return [(Adt("it:zip", 0, (args[0], other)), st)]
+
+
 def m_slice_iter(interp, fn, args, st, site, frame):
     if not getattr(interp, "concrete_iters", False):
         return None                 # opt-in (client.explore_fn(..., concrete_iters=True)): other rules model iterators themselves
+    w = _window(args[0]) if args else None
+    if w is not None:
+        return [(Adt("it:slice", 0, (w[0], Const(w[1], "usize"), Const(w[2], "usize"))), st)]
     n = _array_len(interp, args[0], st) if args else None
     if n is None or n > 64:
         return None
@@ -536,6 +657,49 @@ def m_iter_flatten(interp, fn, args, st, site, frame):
     if args and isinstance(args[0], Adt) and args[0].name.startswith("it:"):
         return [(Adt("it:flatten", 0, (args[0],)), st)]
     return None
+
+
+def _drain(interp, it, st, site, k=0):
+    """every way a concrete iterator can be run to exhaustion: [(items, state)]"""
+    if k > 64:
+        raise ValueError
+    if it.name == "it:flatten":
+        outs = _flatten_next(interp, it, st, "%s#%d" % (site, k))
+    else:
+        item, it2 = _it_next(it)
+        outs = [(item, it2, st)]
+    res = []
+    for (item, it2, st2) in outs:
+        if item is None:
+            res.append(([], st2))
+        else:
+            for (rest, st3) in _drain(interp, it2, st2, site, k + 1):
+                res.append(([item] + rest, st3))
+    return res
+
+
+def m_vec_extend(interp, fn, args, st, site, frame):
+    """vec.extend(<concrete iterator>) = vec.push(x) for every item, in order (logged as pushes)"""
+    if len(args) != 2 or not (isinstance(args[1], Adt) and args[1].name.startswith("it:")):
+        return None
+    m = None
+    for k in ("rfull", "full", "rpath", "path"):
+        m = m or re.match(r"^<std::vec::Vec<(.*?)> as std::iter::Extend<", fn.get(k) or "")
+    if not m:
+        return None
+    push = "std::vec::Vec::<%s>::push" % m.group(1)
+    try:
+        runs = _drain(interp, args[1], st, site)
+    except ValueError:
+        return None
+    out = []
+    for (items, st2) in runs:
+        cur = st2
+        for k, x in enumerate(items):
+            r = interp.opaque_call(push, [args[0], x], cur, "%s#%d" % (site, k), frame)
+            cur = r[0][1]
+        out.append((UNIT, cur))
+    return out
 
 
 def m_into_iter_identity(interp, fn, args, st, site, frame):
@@ -583,6 +747,15 @@ def _it_next(it):
         if a.v >= b.v:
             return None, it
         return a, Adt(nm, 0, (Const(a.v + 1, a.ty), b))
+    if nm == "it:zip":
+        a, b = f
+        x, a2 = _it_next(a)
+        if x is None:
+            return None, Adt(nm, 0, (a2, b))
+        y, b2 = _it_next(b)
+        if y is None:
+            return None, Adt(nm, 0, (a2, b2))
+        return Adt("tuple", 0, (x, y)), Adt(nm, 0, (a2, b2))
     if nm == "it:enum":
         inner, c = f
         item, inner2 = _it_next(inner)
@@ -688,6 +861,12 @@ def m_partial_eq(interp, fn, args, st, site, frame):
     a = deref(interp, args[0], st)
     b = deref(interp, args[1], st)
     ne = fn["path"].endswith("::ne")
+    if isinstance(a, Adt) and isinstance(b, Adt) and a.name == b.name == OPTION and (a.fields or b.fields):
+        # Option<T> == Option<T>: None never equals Some; two Some compare their payloads (an atom named after the site)
+        if a.variant != b.variant:
+            return [(Const(1 if ne else 0, "bool"), st)]
+        res = interp.opaque_call(fn["path"], [a.fields[0], b.fields[0]], st, site, frame)
+        return res
     if isinstance(a, Adt) and isinstance(b, Adt) and not a.fields and not b.fields and a.name == b.name:
         r = (a.variant == b.variant)
         return [(Const(1 if (r != ne) else 0, "bool"), st)]
@@ -761,9 +940,16 @@ BASE_MODELS = [
     (r"^std::array::iter::<impl std::iter::IntoIterator for \[.*\]>::into_iter$", m_array_into_iter),
     (r"as std::iter::Iterator>::flatten$|^std::iter::Iterator::flatten$", m_iter_flatten),
     (r"as std::iter::IntoIterator>::into_iter$", m_into_iter_identity),
+    (r"^<std::vec::Vec<.*> as std::iter::Extend<.*>>::extend::<", m_vec_extend),
     (r"^core::slice::<impl \[.*\]>::(iter|iter_mut)$", m_slice_iter),
     (r"^std::iter::Iterator::enumerate$|as std::iter::Iterator>::enumerate$", m_iter_enumerate),
     (r"^std::iter::Iterator::take$|as std::iter::Iterator>::take$", m_iter_take),
+    (r"^std::iter::Iterator::zip$|as std::iter::Iterator>::zip(::<.*>)?$", m_iter_zip),
+    (r"^core::slice::<impl \[.*\]>::split_at(_mut)?$", m_split_at_concrete),
+    (r"^core::slice::<impl \[.*\]>::len$", m_view_len),
+    (r"^core::num::<impl u\d+>::to_be_bytes$", m_to_be_bytes),
+    (r"Bit(Xor|And|Or)Assign(<.*>)?>::bit(xor|and|or)_assign$", m_bitop_assign),
+    (r"^core::num::<impl u\d+>::from_be_bytes$", m_from_be_bytes),
     (r"^std::iter::Iterator::skip$|as std::iter::Iterator>::skip$", m_iter_skip),
     (r"as std::iter::Iterator>::next$|^std::iter::Iterator::next$", m_iter_next),
     (r"^<std::string::String as std::ops::Deref>::deref$|^<std::vec::Vec<.*> as std::ops::Deref>::deref$", m_identity),
